@@ -51,18 +51,18 @@ def _mk_enum_const(n):
         b = 'B"'
 
         from octave_mcp.core import constraints as c
+        from octave_mcp.core import emitter as em
         from octave_mcp.core.gbnf_compiler import GBNFCompiler
-        from vf import gbnf
 
         comp = GBNFCompiler()
-        # the fragment is exactly the parenthesised '|'-list of quoted _escape_literal images (each of which
+        # the fragment is exactly the parenthesised '|'-list of quoted _escape_literal images of the values' canonical emission (each of which
         # G.escape-literal-identity shows to be one well-formed literal denoting the value)
         if kind == 0:
             frag = comp._compile_enum(c.EnumConstraint([a, b]))
-            want = '("' + comp._escape_literal(a) + '" | "' + comp._escape_literal(b) + '")'
+            want = '("' + comp._escape_literal(em.emit_value(a)) + '" | "' + comp._escape_literal(em.emit_value(b)) + '")'
         elif kind == 1:
             frag = comp._compile_const(c.ConstConstraint(a))
-            want = '"' + comp._escape_literal(a) + '"'
+            want = '"' + comp._escape_literal(em.emit_value(a)) + '"'
         else:
             frag = comp._compile_const(c.ConstConstraint(n))
             want = '"' + str(n) + '"'
